@@ -62,9 +62,15 @@ type run struct {
 	main   *entry
 
 	srcKey, otherKey string
+	early            *earlyUpload // multipart upload on the main key, initiated (one part uploaded) before the key was protected
 	otherVids        []string
 	tops             []string
 	evals            int
+}
+
+type earlyUpload struct {
+	id, etag string
+	w        *wid.Write
 }
 
 func (r *run) root() *s3c.Client { return r.e.cl[cRoot] }
@@ -204,6 +210,15 @@ func (r *run) setup() error {
 		K = "dir/sub/obj"
 	}
 	label := p.label()
+	// an upload on the key that is still open when the key becomes protected
+	{
+		w := r.ck.ws.Mk(false)
+		if id, cr := root.CreateMPU(b, K, w.Hdr()...); cr.OK() {
+			if up := root.UploadPart(b, K, id, 1, w.Body); up.OK() {
+				r.early = &earlyUpload{id: id, etag: strings.Trim(up.Header.Get("Etag"), `"`), w: w}
+			}
+		}
+	}
 	var en *entry
 	if !p.After {
 		w, vid, err := put(K, lockHdr(kind)...)
